@@ -3,138 +3,491 @@
 Correspondence: `rasterize._edges`, the binning of `np.histogramdd` (through `from_particles`), the
 time-slot slicing, and `get_settled_particles` against the Lean models; oracle: counts / weights sum to
 the particles inside the outer bin edges, edges midway between centres, every particle and every
-instance stored exactly once in SQLite with its time stamp, last recorded instance per pid."""
-import importlib, sqlite3
+instance stored exactly once in SQLite with its time stamp, last recorded instance per pid.
+
+Every call of the implementation gets a *fresh* dataset built from private copies of the generated arrays and
+every oracle is judged against the pristine arrays, so an in-place change of the input by the implementation
+cannot make the expectation follow it."""
+import importlib, itertools, os, shutil, sqlite3, tempfile
 import numpy as np
 from .common import Driver, F, I, L, unF, same_bits
 
-RULE = ("sparse LADiM datasets: 1..6 time slots (some empty), 0..50 instances, pids with repeats and gaps; monotone bin-centre "
-        "grids (increasing, irregular spacing) in 1..3 dimensions with particles inside, on edges and outside; weights. "
-        "Non-trivial: dataset with >= 1 instance.")
+RULE = ("sparse LADiM datasets: 1..6 time slots (some empty), 0..50 instances (8 %: up to ~380), pids with repeats and gaps, "
+        "sorted within a slot / shuffled within a slot / arbitrary sequences, particle dimension up to 30 longer than the largest pid, "
+        "int64 or int32 counts and pids, variables in random order with independent values, time stamps hourly / irregular / epoch-sized "
+        "(and datetime64 for the raster); monotone bin-centre grids, increasing (irregular spacing, unit or 800 m scale, float or integer "
+        "centres) and decreasing (12 % of cases one dimension), in 1..3 dimensions in any key order, with particles inside, on interior "
+        "and outer edges and outside; weights: positive, zero, negative, mixed magnitude 1e-3..1e3, integer-typed, one or two weight "
+        "variables in any order with/without the plain count; calls: from_particles on the dataset, with time_idx, with renamed "
+        "count/time/instance names, on a netCDF file name; ladim_raster with a centres-only grid, with explicit midway bounds, and with a "
+        "per-particle bin variable; to_sqlite in memory and ladim_file_to_sqlite on 1..3 netCDF chunk files; get_settled_particles "
+        "(also on the empty dataset). Non-trivial: dataset with >= 1 instance.")
 ASSUMPTIONS = ["np.histogramdd is modelled by its documented binning (half-open bins, last bin closed) and checked against the real call",
-               "weighted sums compared with 1e-12 relative tolerance (summation order of histogramdd)"]
+               "weighted sums compared with 1e-12 relative to the sum of absolute weights (summation order of histogramdd); exactly when all weights "
+               "are multiples of 0.25 below 2^11 (every partial sum is representable)",
+               "the per-cell oracle is convention-free: a cell must hold at least the particles strictly inside it and at most those in its closure; "
+               "per-cell weights are judged only in slots where no particle lies exactly on an edge",
+               "several netCDF files given to ladim_file_to_sqlite are chunks in time of one run, each carrying the whole particle table"]
+
+SITE_FP = "ladim_plugins/utils/rasterize.py::from_particles"
+SITE_LR = "ladim_plugins/utils/rasterize.py::ladim_raster"
+INST = ["pid", "X", "Y", "Z", "w", "w2", "age"]          # per-instance variables
+PART = ["release_time", "farmid", "Zone", "grp"]         # per-particle variables (deliberately not alphabetical)
+GRP_CENTRES = [0.0, 1.0, 2.0, 3.5]
 
 
-def make_dataset(rng):
-    import xarray as xr
+# ----------------------------------------------------------------------------- generator
+def make_case(rng):
     nt = rng.randrange(1, 7)
-    counts = [rng.choice([0, 0, 1, 2, 5, 9]) for _ in range(nt)]
+    long_ = rng.random() < 0.08
+    counts = [rng.choice([0, 17, 40, 64]) if long_ else rng.choice([0, 0, 1, 2, 5, 9]) for _ in range(nt)]
     n = sum(counts)
     npart = rng.randrange(1, 12)
+    pid_mode = rng.choice(["sorted", "sorted", "shuffled", "free"])
     pid = []
     for c in counts:
-        pid += sorted(rng.sample(range(npart), min(c, npart)) + [rng.randrange(npart) for _ in range(max(0, c - npart))])[:c]
-    pid = np.array(pid, dtype=int)
-    centers = [np.cumsum([rng.choice([0.5, 1.0, 2.5]) for _ in range(rng.randrange(2, 7))]) + rng.uniform(-5, 5) for _ in range(3)]
+        if pid_mode == "free":
+            p = [rng.randrange(npart) for _ in range(c)]
+        else:
+            p = sorted(rng.sample(range(npart), min(c, npart)) + [rng.randrange(npart) for _ in range(max(0, c - npart))])[:c]
+            if pid_mode == "shuffled":
+                rng.shuffle(p)
+        pid += p
+    idt = rng.choice(["int64", "int64", "int32"])
+    pid = np.array(pid, dtype=idt)
+    npart_dim = npart + (rng.randrange(1, 30) if rng.random() < 0.2 else 0)
+    # ---- bin centres
+    grid_kind = rng.choice(["unit", "unit", "unit", "metric", "int"])
+    centers = []
+    for _ in range(3):
+        m = rng.randrange(2, 7)
+        if grid_kind == "int":
+            cs = np.cumsum([rng.choice([1, 2, 5]) for _ in range(m)]) + rng.randrange(-5, 6)
+        else:
+            cs = np.cumsum([rng.choice([0.5, 1.0, 2.5]) for _ in range(m)]) + rng.uniform(-5, 5)
+            if grid_kind == "metric":
+                cs = cs * 800.0 + 1e5
+        centers.append(cs)
+    decreasing = None
+    if rng.random() < 0.12:
+        decreasing = rng.randrange(3)
+        centers[decreasing] = centers[decreasing][::-1].copy()
+
     def coord(cs):
+        cs = [float(v) for v in cs]
         lo = cs[0] - (cs[1] - cs[0]); hi = cs[-1] + (cs[-1] - cs[-2])
         vals = []
         for _ in range(n):
             r = rng.random()
-            if r < 0.15: vals.append(float(rng.choice(list(cs))))
-            elif r < 0.25: vals.append(float(0.5 * (cs[0] + cs[1])))
+            if r < 0.15: vals.append(float(rng.choice(cs)))
+            elif r < 0.20: vals.append(float(0.5 * (cs[0] + cs[1])))
+            elif r < 0.25:
+                j = rng.randrange(len(cs) - 1)                                        # any interior edge
+                vals.append(float(0.5 * (cs[j] + cs[j + 1])))
             elif r < 0.3: vals.append(float(cs[0] - (cs[1] - cs[0]) / 2))           # exactly on the outer edge
             elif r < 0.35: vals.append(float(cs[-1] + (cs[-1] - cs[-2]) / 2))
+            elif r < 0.37: vals.append(float(lo - 10 * (cs[1] - cs[0])))             # far outside
             else: vals.append(rng.uniform(lo, hi))
-        return np.array(vals)
+        return np.array(vals, dtype=float)
     X, Y, Z = coord(centers[0]), coord(centers[1]), coord(centers[2])
-    w = np.array([rng.choice([1.0, 0.5, 3.25, rng.uniform(0, 10)]) for _ in range(n)])
-    ds = xr.Dataset(
-        data_vars=dict(
-            particle_count=("time", np.array(counts, dtype=int)),
-            pid=("particle_instance", pid), X=("particle_instance", X), Y=("particle_instance", Y), Z=("particle_instance", Z),
-            w=("particle_instance", w), farmid=("particle", np.arange(npart) + 100.0), release_time=("particle", np.arange(npart) * 10.0)),
-        coords=dict(time=("time", np.arange(nt) * 3600.0)))
-    return ds, counts, pid, centers, dict(X=X, Y=Y, Z=Z), w
+    w_kind = rng.choice(["positive", "positive", "signed", "mixed"])
+    if w_kind == "positive":
+        w = [rng.choice([1.0, 0.5, 3.25, rng.uniform(0, 10)]) for _ in range(n)]
+    elif w_kind == "signed":
+        w = [rng.choice([0.0, -1.0, 2.5, rng.uniform(-10, 10)]) for _ in range(n)]
+    else:
+        w = [rng.choice([-1.0, 1.0]) * rng.uniform(1, 10) * 10.0 ** rng.randrange(-4, 3) for _ in range(n)]
+    w = np.array(w, dtype=float)
+    w2_int = rng.random() < 0.3
+    if w2_int:
+        w2 = np.array([rng.randrange(-3, 6) for _ in range(n)], dtype="int64")
+    else:
+        w2 = np.array([rng.choice([0.0, -1.0, 2.0, 0.25, -3.5, 1024.0, 7.0]) for _ in range(n)], dtype=float)
+    age = np.array([rng.uniform(0, 1e6) for _ in range(n)], dtype=float)
+    # ---- per-particle variables, independent of each other
+    farmid = np.array(rng.sample(range(10000, 10000 + 4 * npart_dim), npart_dim), dtype=float)
+    release_time = np.array([rng.choice([0.0, 3600.0, rng.uniform(0, 1e5)]) for _ in range(npart_dim)])
+    zone = np.array([float(rng.randrange(-2, 3)) for _ in range(npart_dim)])
+    grp = np.array([rng.choice([-1.0, -0.5, 0.0, 0.5, 1.0, 1.5, 2.0, 2.75, 3.5, 4.25, 6.0]) for _ in range(npart_dim)])
+    # ---- time stamps (strictly increasing)
+    t_kind = rng.choice(["hourly", "irregular", "epoch"])
+    if t_kind == "hourly":
+        tv = np.arange(nt) * 3600.0
+    elif t_kind == "irregular":
+        tv = rng.uniform(-1e5, 1e5) + np.cumsum([rng.choice([1.0, 60.0, 3600.0, rng.uniform(0.5, 5e4)]) for _ in range(nt)])
+    else:
+        tv = 1.7e9 + np.cumsum([rng.choice([0.25, 600.0, 86400.0, 7.5]) for _ in range(nt)])
+    order = INST + PART + ["particle_count"]
+    rng.shuffle(order)
+    return dict(counts=counts, cdt=idt, pid=pid, npart=npart_dim, centers=centers, decreasing=decreasing, grid_kind=grid_kind,
+                X=X, Y=Y, Z=Z, w=w, w2=w2, age=age, farmid=farmid, release_time=release_time, Zone=zone, grp=grp,
+                time=np.asarray(tv, dtype=float), order=order, pid_mode=pid_mode, w_kind=w_kind, t_kind=t_kind, long=long_)
 
 
+def build_ds(g, time="float"):
+    """a fresh dataset from private copies of the generated arrays"""
+    import xarray as xr
+    dv = {}
+    for name in g["order"]:
+        if name == "particle_count":
+            dv[name] = ("time", np.array(g["counts"], dtype=g["cdt"]))
+        elif name in INST:
+            dv[name] = ("particle_instance", g[name].copy())
+        else:
+            dv[name] = ("particle", g[name].copy())
+    if time == "datetime":
+        tv = np.datetime64("2020-03-01T00:00:00", "ms") + np.round((g["time"] - g["time"][0]) * 1000).astype("int64").astype("timedelta64[ms]")
+        tv = tv.astype("datetime64[ns]")
+    else:
+        tv = g["time"].copy()
+    return xr.Dataset(data_vars=dv, coords=dict(time=("time", tv)))
+
+
+def describe(g):
+    d = {}
+    for k, v in g.items():
+        if k == "centers":
+            d[k] = [c.tolist() for c in v]
+        elif isinstance(v, np.ndarray):
+            d[k] = v.tolist()
+        else:
+            d[k] = v
+    return d
+
+
+# ----------------------------------------------------------------------------- reference binning
+def _cands(E, x):
+    """cells of a 1-D grid with edges E (monotone, either direction) that may hold x: None outside the outer edges;
+    ([k], True) strictly inside cell k; (cells, False) exactly on an edge (the cells touching it)"""
+    lo, hi = (E[0], E[-1]) if E[0] <= E[-1] else (E[-1], E[0])
+    if not (lo <= x <= hi):
+        return None
+    ks = []
+    for k in range(len(E) - 1):
+        a, b = (E[k], E[k + 1]) if E[k] <= E[k + 1] else (E[k + 1], E[k])
+        if a < x < b:
+            return [k], True
+        if x == a or x == b:
+            ks.append(k)
+    return ks, False
+
+
+def reference(edges, cols, wts):
+    """edges: one float list per dimension; cols: the particles' coordinates per dimension; wts: {name: weights}.
+    -> inside mask (closed outer edges), per-cell lower/upper counts, whether no inside particle lies on an edge,
+    per-cell weights and absolute weights of the strictly-inside particles"""
+    shape = [len(E) - 1 for E in edges]
+    n = len(cols[0]) if cols else 0
+    lower = np.zeros(shape, dtype=int); upper = np.zeros(shape, dtype=int)
+    inside = np.zeros(n, dtype=bool)
+    cw = {k: np.zeros(shape) for k in wts}; ca = {k: np.zeros(shape) for k in wts}
+    strict_all = True
+    for i in range(n):
+        cc = [_cands(E, float(col[i])) for E, col in zip(edges, cols)]
+        if any(c is None for c in cc):
+            continue
+        inside[i] = True
+        if all(c[1] for c in cc):
+            ix = tuple(c[0][0] for c in cc)
+            lower[ix] += 1; upper[ix] += 1
+            for k in wts:
+                cw[k][ix] += float(wts[k][i]); ca[k][ix] += abs(float(wts[k][i]))
+        else:
+            strict_all = False
+            for ix in itertools.product(*[c[0] for c in cc]):
+                upper[ix] += 1
+    return inside, lower, upper, strict_all, cw, ca
+
+
+def dyadic(v):
+    v = np.asarray(v, dtype=float)
+    return bool(np.all(v * 4 == np.round(v * 4)) and np.all(np.abs(v) <= 2048))
+
+
+def judge(ctx, site, what, hist, edges, cols, wts, cs, legacy_tol=False):
+    """the statement for one time slot. hist: {None or weight name: cell array} as returned by the implementation;
+    edges / cols per dimension (pristine); wts: {name: pristine weights of the slot}"""
+    inside, lower, upper, strict_all, cw, ca = reference(edges, cols, {k: wts[k] for k in hist if k is not None})
+    if None in hist:
+        bc = np.asarray(hist[None])
+        ctx.oracle(bc.sum() == inside.sum(), "C19.raster.count_not_conserved", site,
+                   "%s: cells sum to %r, %d particles inside the outer edges" % (what, bc.sum(), inside.sum()), cs)
+        # bin edges are the cell boundaries: a cell holds at least the particles strictly inside it and at most those in its closure
+        ok = bc.shape == lower.shape and bool(np.all(lower <= bc) and np.all(bc <= upper))
+        ctx.oracle(ok, "C19.raster.cell_counts", site, "%s: cell counts %r not between %r (strictly inside) and %r (closure)"
+                   % (what, bc.tolist(), lower.tolist(), upper.tolist()), cs)
+    for k in hist:
+        if k is None:
+            continue
+        bw = np.asarray(hist[k]); wk = np.asarray(wts[k], dtype=float)
+        tw = wk[inside].sum(); ta = np.abs(wk[inside]).sum()
+        if legacy_tol:
+            ctx.oracle(abs(bw.sum() - tw) <= 1e-9 * (1 + abs(tw)), "C19.raster.weight_not_conserved", site,
+                       "%s: weighted cells (%s) sum to %r, total weight inside %r" % (what, k, bw.sum(), tw), cs)
+        # two summation orders of <= ~400 terms differ by at most 2 (n-1) u sum|w| < 1e-13 sum|w|; exact for dyadic weights
+        tol = 0.0 if dyadic(wk) else 1e-12 * ta
+        ctx.oracle(abs(bw.sum() - tw) <= tol, "C19.raster.weight_not_conserved", site,
+                   "%s: weighted cells (%s) sum to %r, total weight inside %r (tolerance %r)" % (what, k, bw.sum(), tw, tol), cs)
+        if strict_all:
+            tolc = 0.0 if dyadic(wk) else 1e-12 * ca[k]
+            ok = bw.shape == cw[k].shape and bool(np.all(np.abs(bw - cw[k]) <= tolc))
+            ctx.oracle(ok, "C19.raster.cell_weights", site, "%s: cell weights (%s) %r, weights of the particles in the cells %r"
+                       % (what, k, bw.tolist(), cw[k].tolist()), cs)
+    return inside
+
+
+def raster_raised(ctx, e, site, what, dec_used, cs):
+    """an exception of the rasteriser on an input of the domain is a failing input; the refusal of a decreasing grid
+    by np.histogramdd gets its own predicate (identified by the exact mechanism), everything else is `raises`"""
+    if dec_used and isinstance(e, ValueError) and "monotonically increasing" in str(e):
+        ctx.oracle(False, "C19.raster.decreasing_grid_raises", site, "%s: decreasing bin centres: raised %r" % (what, e), cs)
+    else:
+        ctx.oracle(False, "C19.raster.raises", site, "%s: raised %r" % (what, e), cs)
+
+
+def midway_ok(a, e):
+    a = np.asarray(a, dtype=float); e = np.asarray(e, dtype=float)
+    return len(e) == len(a) + 1 and np.allclose(e[1:-1], 0.5 * (a[:-1] + a[1:]), rtol=0, atol=0) \
+        and abs((a[0] - e[0]) - (e[1] - a[0])) <= 1e-12 * (1 + abs(a[0])) \
+        and abs((e[-1] - a[-1]) - (a[-1] - e[-2])) <= 1e-12 * (1 + abs(a[-1]))
+
+
+def own_edges(a):
+    """midway edges computed independently (other rounding than `_edges` in the outer edges)"""
+    a = np.asarray(a, dtype=float)
+    mid = 0.5 * (a[:-1] + a[1:])
+    return np.concatenate([[a[0] - (mid[0] - a[0])], mid, [a[-1] + (a[-1] - mid[-1])]])
+
+
+# ----------------------------------------------------------------------------- run
 def run(ctx):
     R = importlib.import_module("ladim_plugins.utils.rasterize")
     C = importlib.import_module("ladim_plugins.utils.converter")
     S = importlib.import_module("ladim_plugins.sedimentation.ibm")
     import xarray as xr
+    rng = ctx.rng
     drv = Driver()
     if getattr(ctx, "widened", False):
         drv.available = False
     pend = []
-    for c in range(ctx.n(120, 2500)):
-        ds, counts, pid, centers, crd, w = make_dataset(ctx.rng)
-        n = len(pid); nt = len(counts)
-        ndim = ctx.rng.randrange(1, 4)
-        keys = ["X", "Y", "Z"][:ndim]
-        cs = dict(counts=counts, pid=pid.tolist(), centers=[c_.tolist() for c_ in centers[:ndim]], coords={k: crd[k].tolist() for k in keys}, w=w.tolist())
-        ctx.case(key=repr(cs), nontrivial=n > 0, sample=dict(counts=counts, ndim=ndim) if c < 3 else None)
-        ctx.branch("ndim=%d" % ndim); ctx.size("slots", nt); ctx.branch("empty_slot" if 0 in counts else "no_empty_slot")
-        # ---- edges
-        edges = []
-        for d in range(ndim):
-            e = R._edges(centers[d])
-            edges.append(e)
-            a = centers[d]
-            ok = np.allclose(e[1:-1], 0.5 * (a[:-1] + a[1:]), rtol=0, atol=0) and abs((a[0] - e[0]) - (e[1] - a[0])) <= 1e-12 * (1 + abs(a[0])) \
-                and abs((e[-1] - a[-1]) - (a[-1] - e[-2])) <= 1e-12 * (1 + abs(a[-1]))
-            ctx.oracle(ok, "C19.edges.not_midway", "ladim_plugins/utils/rasterize.py::_edges", "centres %r -> edges %r" % (a.tolist(), e.tolist()), cs)
+    tmp = tempfile.mkdtemp(prefix="c19_")
+    try:
+        for c in range(ctx.n(120, 2500)):
+            g = make_case(rng)
+            counts = g["counts"]; pid = g["pid"]; centers = g["centers"]
+            crd = dict(X=g["X"], Y=g["Y"], Z=g["Z"])
+            n = len(pid); nt = len(counts)
+            ndim = rng.randrange(1, 4)
+            if rng.random() < 0.7:
+                keys = ["X", "Y", "Z"][:ndim]
+            else:
+                keys = rng.sample(["X", "Y", "Z"], ndim)
+            vdims = rng.choice([(None, "w"), (None, "w"), ("w", None), (None, "w", "w2"), ("w2", None, "w")])
+            cs = dict(describe(g), keys=keys, vdims=list(vdims))
+            ctx.case(key=repr(cs), nontrivial=n > 0, sample=dict(counts=counts, keys=keys, vdims=list(vdims)) if c < 3 else None)
+            ctx.branch("ndim=%d" % ndim); ctx.size("slots", nt); ctx.branch("empty_slot" if 0 in counts else "no_empty_slot")
+            ctx.branch("keys=" + ("prefix" if keys == ["X", "Y", "Z"][:ndim] else "permuted"))
+            ctx.branch("vdims=" + ",".join("count" if v is None else v for v in vdims))
+            ctx.branch("pid=" + g["pid_mode"]); ctx.branch("ints=" + g["cdt"]); ctx.branch("weights=" + g["w_kind"])
+            ctx.branch("w2=" + ("int" if g["w2"].dtype.kind == "i" else "dyadic")); ctx.branch("time=" + g["t_kind"])
+            ctx.branch("grid=" + g["grid_kind"]); ctx.branch("long" if g["long"] else "short")
+            if g["npart"] > int(pid.max() if n else 0) + 12: ctx.branch("particle_dim>>max_pid")
+            kd = dict(X=0, Y=1, Z=2)
+            dec_used = g["decreasing"] is not None and "XYZ"[g["decreasing"]] in keys
+            if g["decreasing"] is not None:
+                ctx.branch("grid=decreasing" + ("(used)" if dec_used else "(unused dimension)"))
+            wts = dict(w=g["w"], w2=g["w2"])
+            # ---- edges
+            edges_all = []
+            for d in range(3):
+                a = centers[d]
+                e = R._edges(a.copy())
+                edges_all.append(e)
+                if "XYZ"[d] not in keys:
+                    continue
+                ctx.oracle(midway_ok(a, e), "C19.edges.not_midway", "ladim_plugins/utils/rasterize.py::_edges", "centres %r -> edges %r" % (a.tolist(), e.tolist()), cs)
+                if drv.available:
+                    pend.append(("edges", drv.ask("post.edges", L(a)), e, cs))
+            edges = [edges_all[kd[k]] for k in keys]
+            E = [[float(v) for v in e] for e in edges]
+            idx = np.cumsum([0] + counts)
+
+            def slot(t, ks=keys):
+                sl = slice(idx[t], idx[t + 1])
+                return sl, [crd[k][sl] for k in ks], {k: v[sl] for k, v in wts.items()}
+
+            def hists(ras, vd, t=None):
+                return {v: (ras["bincount" if v is None else v].values if t is None else ras["bincount" if v is None else v].values[t]) for v in vd}
+
+            # ---- raster: the whole dataset
+            ras = None
+            try:
+                ras = R.from_particles(build_ds(g), list(keys), [e.tolist() for e in edges], vdims=vdims)
+            except Exception as e:
+                raster_raised(ctx, e, SITE_FP, "from_particles", dec_used, cs)
+            if ras is not None:
+                bc = ras["bincount"].values
+                for t in range(nt):
+                    sl, cols, ws = slot(t)
+                    judge(ctx, SITE_FP, "slot %d" % t, hists(ras, vdims, t), E, cols, ws, dict(cs, slot=t), legacy_tol=True)
+                    if drv.available and not dec_used:
+                        js = [drv.ask("post.bins", L(edges[d]), L(crd[k][sl])) for d, k in enumerate(keys)]
+                        pend.append(("hist", js, (bc[t], [len(e) - 1 for e in edges]), dict(cs, slot=t)))
+                ctx.oracle(bool(ras["time"].values.shape == g["time"].shape and np.all(ras["time"].values == g["time"])), "C19.raster.times", SITE_FP, "time stamps changed", cs)
+            # ---- raster: one time slot through `time_idx`
+            tsel = {0, nt - 1}
+            if 0 in counts: tsel.add(counts.index(0))
+            tsel = sorted(tsel)
+            if len(tsel) > 2: tsel = rng.sample(tsel, 2)
+            for t in tsel:
+                ctx.branch("time_idx=" + ("0" if t == 0 else "last" if t == nt - 1 else "middle") + ("(empty)" if counts[t] == 0 else ""))
+                try:
+                    r1 = R.from_particles(build_ds(g), list(keys), [e.tolist() for e in edges], vdims=vdims, time_idx=t)
+                except Exception as e:
+                    raster_raised(ctx, e, SITE_FP, "from_particles(time_idx=%d)" % t, dec_used, dict(cs, time_idx=t))
+                    continue
+                sl, cols, ws = slot(t)
+                judge(ctx, SITE_FP, "time_idx=%d" % t, hists(r1, vdims), E, cols, ws, dict(cs, time_idx=t))
+            # ---- raster: weights only / other names / decoded time stamps / file name
+            extra = rng.choice(["weights_only", "renamed", "datetime", "file", "none"])
+            ctx.branch("extra_call=" + extra)
+            if extra != "none":
+                vd2 = vdims; kw = {}; dsx = build_ds(g); tname = "time"; want_t = g["time"]
+                if extra == "weights_only":
+                    vd2 = rng.choice([("w",), ("w2", "w"), ("w2",)])
+                elif extra == "renamed":
+                    dsx = dsx.rename({"particle_count": "pcount", "time": "t", "particle_instance": "inst"})
+                    kw = dict(timevar_name="t", countvar_name="pcount")
+                elif extra == "datetime":
+                    dsx = build_ds(g, time="datetime"); want_t = dsx["time"].values.copy()
+                elif extra == "file":
+                    fn = os.path.join(tmp, "raster_%d.nc" % c)
+                    dsx.to_netcdf(fn); dsx = fn
+                r2 = None
+                try:
+                    r2 = R.from_particles(dsx, list(keys), [e.tolist() for e in edges], vdims=vd2, **kw)
+                except Exception as e:
+                    raster_raised(ctx, e, SITE_FP, "from_particles[%s]" % extra, dec_used, dict(cs, extra=extra, vdims2=list(vd2)))
+                if r2 is not None:
+                    for t in range(nt):
+                        sl, cols, ws = slot(t)
+                        judge(ctx, SITE_FP, "[%s] slot %d" % (extra, t), hists(r2, vd2, t), E, cols, ws, dict(cs, extra=extra, vdims2=list(vd2), slot=t))
+                    ctx.oracle(bool(r2["time"].values.shape == want_t.shape and np.all(r2["time"].values == want_t)), "C19.raster.times", SITE_FP,
+                               "[%s] time stamps changed" % extra, dict(cs, extra=extra))
+            # ---- raster from bin centres: ladim_raster (add_edge_info, bounds -> edges, broadcast of per-particle variables)
+            gk = rng.sample(["X", "Y", "Z"], rng.randrange(1, 3))
+            if rng.random() < 0.3:
+                gk.insert(rng.randrange(len(gk) + 1), "grp")
+            gcent = {k: (np.array(GRP_CENTRES) if k == "grp" else centers[kd[k]].copy()) for k in gk}
+            explicit = [k for k in gk if rng.random() < 0.25]
+            grid = xr.Dataset(coords={k: (k, gcent[k]) for k in gk})
+            for k in explicit:
+                oe = own_edges(gcent[k])
+                grid[k + "_bnds"] = ((k, "nv"), np.stack([oe[:-1], oe[1:]], axis=-1))
+                grid[k].attrs["bounds"] = k + "_bnds"
+            gw = rng.choice([(None,), (None, "w"), (None, "w2", "w")])
+            gcs = dict(cs, grid_keys=gk, explicit_bounds=explicit, grid_weights=list(gw))
+            gdec = g["decreasing"] is not None and "XYZ"[g["decreasing"]] in gk
+            ctx.branch("ladim_raster ndim=%d" % len(gk))
+            if "grp" in gk: ctx.branch("ladim_raster per-particle bin variable")
+            if explicit: ctx.branch("ladim_raster explicit midway bounds")
+            if gdec: ctx.branch("ladim_raster decreasing")
+            lr = None
+            try:
+                lr = R.ladim_raster(build_ds(g), grid, weights=gw)
+            except Exception as e:
+                raster_raised(ctx, e, SITE_LR, "ladim_raster", gdec, gcs)
+            if lr is not None:
+                gE = []; okb = True
+                for k in gk:
+                    bname = lr[k].attrs.get("bounds")
+                    if bname is None or bname not in lr.variables:
+                        okb = False
+                        ctx.oracle(False, "C19.edges.not_midway", "ladim_plugins/utils/rasterize.py::add_edge_info", "no bounds for %r in the raster" % k, gcs)
+                        break
+                    b = np.asarray(lr[bname].values, dtype=float)
+                    e = np.concatenate([b[:, 0], b[-1:, 1]])
+                    contiguous = b.shape == (len(gcent[k]), 2) and bool(np.all(b[1:, 0] == b[:-1, 1]))
+                    ctx.oracle(contiguous and midway_ok(gcent[k], e), "C19.edges.not_midway", "ladim_plugins/utils/rasterize.py::add_edge_info",
+                               "centres %r -> bounds %r" % (gcent[k].tolist(), b.tolist()), gcs)
+                    okb = okb and contiguous
+                    gE.append([float(v) for v in e])
+                if okb:
+                    gcol = {k: (g["grp"][pid] if k == "grp" else crd[k]) for k in gk}
+                    dims_ok = all(lr["bincount" if v is None else v].dims == ("time",) + tuple(gk) for v in gw)
+                    ctx.oracle(dims_ok, "C19.raster.cell_counts", SITE_LR, "raster dimensions %r for grid %r" % (lr["bincount"].dims, gk), gcs)
+                    if dims_ok:
+                        for t in range(nt):
+                            sl = slice(idx[t], idx[t + 1])
+                            judge(ctx, SITE_LR, "ladim_raster slot %d" % t, hists(lr, gw, t), gE, [gcol[k][sl] for k in gk],
+                                  {k: v[sl] for k, v in wts.items()}, dict(gcs, slot=t))
+                    ctx.oracle(bool(lr["time"].values.shape == g["time"].shape and np.all(lr["time"].values == g["time"])), "C19.raster.times", SITE_LR, "time stamps changed", gcs)
+            # ---- sqlite
+            want = sorted(tuple([float(g["time"][t])] + [float(g[v][i]) for v in INST]) for t in range(nt) for i in range(idx[t], idx[t + 1]))
+            wantp = sorted(tuple(float(g[v][i]) for v in PART) for i in range(g["npart"]))
+            qi = "select time, %s from particle_instance" % ", ".join(INST)
+            qp = "select %s from particle" % ", ".join(PART)
+
+            def judge_sql(prow, irow, what, scs):
+                ctx.oracle(len(prow) == g["npart"] and sorted(prow) == wantp, "C19.sqlite.particles", "ladim_plugins/utils/converter.py::add_particle_values",
+                           "%s: %d particle rows for %d particles (or wrong values)" % (what, len(prow), g["npart"]), scs)
+                ctx.oracle(sorted(irow) == want and len(irow) == n, "C19.sqlite.instances", "ladim_plugins/utils/converter.py::add_instance_values",
+                           "%s: %d instance rows for %d instances (or wrong time stamps / values)" % (what, len(irow), n), scs)
+
+            con = sqlite3.connect(":memory:")
+            try:
+                C.to_sqlite(build_ds(g), con)
+                cur = con.cursor()
+                prow = cur.execute(qp).fetchall()
+                irow = cur.execute(qi).fetchall()
+            finally:
+                con.close()
+            judge_sql(prow, irow, "to_sqlite", cs)
             if drv.available:
-                pend.append(("edges", drv.ask("post.edges", L(a)), e, cs))
-        # ---- raster
-        try:
-            ras = R.from_particles(ds, keys, [e.tolist() for e in edges], vdims=(None, "w"))
-        except Exception as e:
-            ctx.oracle(False, "C19.raster.raises", "ladim_plugins/utils/rasterize.py::from_particles", "raised %r" % (e,), cs)
-            continue
-        bc = ras["bincount"].values; bw = ras["w"].values
-        idx = np.cumsum([0] + counts)
-        for t in range(nt):
-            sl = slice(idx[t], idx[t + 1])
-            inside = np.ones(idx[t + 1] - idx[t], bool)
-            for d, k in enumerate(keys):
-                inside &= (crd[k][sl] >= edges[d][0]) & (crd[k][sl] <= edges[d][-1])
-            ctx.oracle(bc[t].sum() == inside.sum(), "C19.raster.count_not_conserved", "ladim_plugins/utils/rasterize.py::from_particles",
-                       "slot %d: cells sum to %r, %d particles inside the outer edges" % (t, bc[t].sum(), inside.sum()), dict(cs, slot=t))
-            tw = w[sl][inside].sum()
-            ctx.oracle(abs(bw[t].sum() - tw) <= 1e-9 * (1 + abs(tw)), "C19.raster.weight_not_conserved", "ladim_plugins/utils/rasterize.py::from_particles",
-                       "slot %d: weighted cells sum to %r, total weight inside %r" % (t, bw[t].sum(), tw), dict(cs, slot=t))
-            if drv.available:
-                js = [drv.ask("post.bins", L(edges[d]), L(crd[k][sl])) for d, k in enumerate(keys)]
-                pend.append(("hist", js, (bc[t], [len(e) - 1 for e in edges]), dict(cs, slot=t)))
-        ctx.oracle(bool(np.all(ras["time"].values == ds["time"].values)), "C19.raster.times", "ladim_plugins/utils/rasterize.py::from_particles", "time stamps changed", cs)
-        # ---- sqlite
-        con = sqlite3.connect(":memory:")
-        try:
-            C.to_sqlite(ds, con)
-            cur = con.cursor()
-            prow = cur.execute("select * from particle").fetchall()
-            irow = cur.execute("select time, pid, X from particle_instance").fetchall()
-        finally:
-            con.close()
-        npart = ds.sizes["particle"]
-        ctx.oracle(len(prow) == npart and sorted(r[0] for r in prow) == sorted(ds["farmid"].values.tolist()),
-                   "C19.sqlite.particles", "ladim_plugins/utils/converter.py::add_particle_values", "%d particle rows for %d particles" % (len(prow), npart), cs)
-        want = []
-        for t in range(nt):
-            for i in range(idx[t], idx[t + 1]):
-                want.append((float(ds["time"].values[t]), float(pid[i]), float(crd["X"][i])))
-        ctx.oracle(sorted(irow) == sorted(want) and len(irow) == n, "C19.sqlite.instances", "ladim_plugins/utils/converter.py::add_instance_values",
-                   "%d instance rows for %d instances (or wrong time stamps)" % (len(irow), n), cs)
-        if drv.available:
-            pend.append(("slots", drv.ask("post.slots", L(counts, I), I(n)), counts, cs))
-        # ---- settled particles
-        if n > 0:
-            st = S.get_settled_particles(ds)
-            got = {int(p): float(x) for p, x in zip(st["pid"].values, st["X"].values)}
+                pend.append(("slots", drv.ask("post.slots", L(counts, I), I(n)), counts, cs))
+            if rng.random() < 0.25:
+                # the file entry point: 1..3 chunks in time of the run, each with the whole particle table
+                nch = rng.randrange(1, min(3, nt) + 1)
+                cuts = [0] + sorted(rng.sample(range(1, nt), nch - 1)) + [nt]
+                ctx.branch("ladim_file_to_sqlite files=%d" % nch)
+                ds = build_ds(g)
+                sub = os.path.join(tmp, "sql_%d" % c); os.mkdir(sub)
+                for j in range(nch):
+                    ch = ds.isel(time=slice(cuts[j], cuts[j + 1]), particle_instance=slice(idx[cuts[j]], idx[cuts[j + 1]]))
+                    ch.to_netcdf(os.path.join(sub, "out_%04d.nc" % j))
+                fo = os.path.join(sub, "out.sqlite")
+                C.ladim_file_to_sqlite(os.path.join(sub, "out_*.nc"), fo)
+                con = sqlite3.connect(fo)
+                try:
+                    cur = con.cursor()
+                    prow = cur.execute(qp).fetchall()
+                    irow = cur.execute(qi).fetchall()
+                finally:
+                    con.close()
+                judge_sql(prow, irow, "ladim_file_to_sqlite (%d files)" % nch, dict(cs, chunks=cuts))
+                shutil.rmtree(sub, ignore_errors=True)
+            # ---- settled particles
+            st = S.get_settled_particles(build_ds(g))
             last = {}
-            for i, p in enumerate(pid):
+            for i, p in enumerate(pid.tolist()):
                 last[int(p)] = i
+            spid = [int(p) for p in st["pid"].values.tolist()]
+            got = {p: float(x) for p, x in zip(spid, st["X"].values)}
             ok = set(got) == set(last) and all(same_bits(got[p], crd["X"][last[p]]) for p in last) and len(st["pid"]) == len(last)
+            ok = ok and all(v in st.variables and len(st[v].values) == len(spid) and all(same_bits(st[v].values[j], g[v][last[p]]) for j, p in enumerate(spid)) for v in INST)
             ctx.oracle(ok, "C19.settled.not_last_instance", "ladim_plugins/sedimentation/ibm.py::get_settled_particles",
                        "selected instances are not the last per pid", cs)
-            ctx.oracle(bool(np.all(st["farmid"].values == ds["farmid"].values[st["pid"].values])), "C19.settled.particle_vars",
-                       "ladim_plugins/sedimentation/ibm.py::get_settled_particles", "per-particle variables misaligned", cs)
-            if drv.available:
+            okp = len(spid) == len(set(spid)) and all(0 <= p < g["npart"] for p in spid) and \
+                all(v in st.variables and len(st[v].values) == len(spid) and all(same_bits(st[v].values[j], g[v][p]) for j, p in enumerate(spid)) for v in PART)
+            ctx.oracle(okp, "C19.settled.particle_vars", "ladim_plugins/sedimentation/ibm.py::get_settled_particles", "per-particle variables misaligned", cs)
+            if n == 0: ctx.branch("settled: empty dataset")
+            if drv.available and n > 0:
                 # impl's chosen instance index recovered through a unique per-instance variable
-                uid = ds.assign(uid=("particle_instance", np.arange(n, dtype=float)))
+                uid = build_ds(g).assign(uid=("particle_instance", np.arange(n, dtype=float)))
                 st2 = S.get_settled_particles(uid)
                 pend.append(("settled", drv.ask("post.settled", L(pid, I)), list(zip(st2["pid"].values.tolist(), [int(u) for u in st2["uid"].values])), cs))
+    finally:
+        shutil.rmtree(tmp, ignore_errors=True)
     if drv.available:
         rep = drv.run()
         for kind, j, impl, cs in pend:
